@@ -144,6 +144,7 @@ FRAME_MACH = {  # machine: (class, code align, data align, return column, CFA re
     62: (64, 1, -8, 16, 7, [3, 6, 12, 13, 14, 15]),
     3: (32, 1, -4, 8, 4, [3, 5, 6, 7]),
     183: (64, 4, -8, 30, 31, [19, 20, 21, 22, 29, 30]),
+    21: (64, 4, -8, 169, 1, [14, 15, 31, 65]),          # no register names in either program; column 169 does not fit 7 bits
 }
 
 
@@ -236,8 +237,12 @@ def gen_frames_file(rng):
     if rng.random() < 0.75:
         base = 0x2000
         sec = bytearray()
-        for c in range(rng.choice([1, 2])):
+        ncie = rng.choice([1, 2])
+        late = []               # FDEs of the first CIE that are emitted behind the second one
+        for c in range(ncie):
             cie_off = len(sec)
+            ra_c = ra if c == 0 else rng.choice([ra, saved[0]])       # CIEs may name different return address columns
+            init_c = b'\x0c' + uleb(cfa_reg) + uleb(abs(daf)) + (bytes([0x80 | ra_c]) + uleb(1) if ra_c < 0x40 else b'\x05' + uleb(ra_c) + uleb(1))
             aug = rng.choice(['zR', 'zR', 'zPLR', 'zPR', 'zLR'])
             penc = rng.choice([0x00, 0x03, 0x1b, 0x9b])
             lenc = rng.choice([0x03, 0x1b, 0x0b])
@@ -256,9 +261,14 @@ def gen_frames_file(rng):
                     else:
                         pb = struct.pack('<I', pv)
                     augdata += bytes([penc]) + pb
-            body = struct.pack('<IB', 0, 1) + aug.encode() + b'\0' + uleb(caf) + sleb(daf) + uleb(ra) + uleb(len(augdata)) + augdata + init
+            body = struct.pack('<IB', 0, 1) + aug.encode() + b'\0' + uleb(caf) + sleb(daf) + (bytes([ra_c]) if ra_c >= 128 else uleb(ra_c)) + \
+                uleb(len(augdata)) + augdata + init_c
             body += b'\0' * (-(len(body) + 4) % asz)
             sec += struct.pack('<I', len(body)) + body
+            if c == 1 and late:
+                for mk in late:
+                    sec += mk(len(sec))
+                late = []
             for f in range(rng.choice([1, 2, 4])):
                 fde_off = len(sec)
                 prog = gen_cfa_program(rng, caf, daf, cfa_reg, saved, rng.choice([2, 6, 15]))
@@ -271,6 +281,17 @@ def gen_frames_file(rng):
                 fb = struct.pack('<I', fde_off + 4 - cie_off) + struct.pack('<i', pc - field) + struct.pack('<I', rng.choice([0x20, 0x80, 0x1234])) + uleb(len(fa)) + fa + prog
                 fb += b'\0' * (-(len(fb) + 4) % asz)
                 sec += struct.pack('<I', len(fb)) + fb
+                if c == 0 and ncie == 2 and 'L' not in aug and rng.random() < 0.5:
+                    # one more FDE of this CIE, placed behind the next CIE
+                    prog2 = gen_cfa_program(rng, caf, daf, cfa_reg, saved, 4)
+
+                    def mk(at, cie_off=cie_off, prog2=prog2, f=f):
+                        b2 = struct.pack('<I', at + 4 - cie_off) + struct.pack('<i', 0x5000 + 0x100 * f - (base + at + 8)) + struct.pack('<I', 0x40) + uleb(0) + prog2
+                        b2 += b'\0' * (-(len(b2) + 4) % asz)
+                        return struct.pack('<I', len(b2)) + b2
+                    late.append(mk)
+            if c == 0 and ncie == 2 and rng.random() < 0.2:
+                sec += b'\0\0\0\0'          # a terminator in mid-section (one per input file of a relocatable link)
         sec += b'\0\0\0\0'
         secs['.eh_frame'] = bytes(sec)
         addrs['.eh_frame'] = base
@@ -282,8 +303,9 @@ def gen_frames_file(rng):
             ver = rng.choice([1, 3, 4])
             fmt64 = rng.random() < 0.25
             vers.append((ver, 64 if fmt64 else 32))
+            init_d = init if ra < 0x40 else b'\x0c' + uleb(cfa_reg) + uleb(abs(daf)) + b'\x05' + uleb(ra) + uleb(1)
             body = (struct.pack('<QB', 2 ** 64 - 1, ver) if fmt64 else struct.pack('<IB', 0xffffffff, ver)) + b'\0' + \
-                (bytes([asz, 0]) if ver == 4 else b'') + uleb(caf) + sleb(daf) + (bytes([ra]) if ver == 1 else uleb(ra)) + init
+                (bytes([asz, 0]) if ver == 4 else b'') + uleb(caf) + sleb(daf) + (bytes([ra]) if ver == 1 else uleb(ra)) + init_d
             body += b'\0' * (-(len(body) + (12 if fmt64 else 4)) % asz)
             cie = (b'\xff\xff\xff\xff' + struct.pack('<Q', len(body)) if fmt64 else struct.pack('<I', len(body))) + body
             fdes = []
